@@ -6,7 +6,7 @@
     Assumption A-SC (DESIGN.md, section 6/C11): executions of the real code are sequentially consistent
     interleavings of its atomic operations; proof level for the hardware memory model: partial. *)
 From Coq Require Import ZArith List Bool.
-From Stk Require Import Lib.U Gen.SrcWaker W.Waker W.WakerCore W.WakerRefine W.WakerProofs.
+From Stk Require Import Lib.U Gen.SrcWaker W.Waker W.WakerCore W.WakerRefine W.WakerProofs W.WakerGhost W.WakerClock.
 Import ListNotations.
 Local Open Scope Z_scope.
 
@@ -30,3 +30,26 @@ Print Assumptions C11_not_stranded.
 Theorem C11_ordering : ordering_ok = true.
 Proof. exact ordering_ok_true. Qed.
 Print Assumptions C11_ordering.
+
+(** [owed st h] becomes true only in a step that contains the leaf [fetch_or] of a [wake] (its first
+    atomic, its linearisation point), and becomes false only in a step in which a call of the handler
+    of [h] starts: the handler call that clears an owed wake-up follows the wake's first atomic. *)
+Theorem C11_handler_after_wake : forall st t st' ev h,
+  wstep st t = (st', ev) ->
+  (~ owed st h -> owed st' h -> exists e, In e ev /\ is_leaf_or e) /\
+  (owed st h -> ~ owed st' h -> exists d, In (EHandler h d) ev).
+Proof. exact handler_after_wake. Qed.
+Print Assumptions C11_handler_after_wake.
+
+(** Publication (happens-before on vector clocks; needs the translated ORDERING to be AcqRel or SeqCst):
+    the clock of the waking thread at its leaf [fetch_or] is below the clock of the thread that later
+    swaps that leaf word, from the swap on - hence at every handler call that follows the collection. *)
+Theorem C11_publishes : forall st0 t st1 ev1 w o n ord,
+  ordering_ok = true -> (1 <= nthr st0)%nat ->
+  wstep st0 t = (st1, ev1) -> In (EAtomic w FetchOr o n ord) ev1 ->
+  forall mid u st3 ev3 o' n' ord',
+    wstep (fst (wrun st1 mid)) u = (st3, ev3) -> In (EAtomic w Swap o' n' ord') ev3 ->
+    (u < nthr (fst (wrun st1 mid)))%nat ->
+    forall after, vle (tclk (thr (tick st0 t) t)) (tclk (thr (fst (wrun st3 after)) u)).
+Proof. exact publishes. Qed.
+Print Assumptions C11_publishes.
